@@ -166,6 +166,18 @@ def hexlit(b: bytes) -> str:
     return '"' + b.hex() + '"%string'
 
 
+PACK_PRE = "From Coq Require Import Uint63.\nFrom DV Require Import Prelude.Base Prelude.Pack63.\n"
+
+
+def packlit(b: bytes) -> str:
+    """bytes literal as 7-byte words of primitive ints (fast to elaborate)"""
+    ws = []
+    for i in range(0, len(b), 7):
+        ch = b[i:i + 7]
+        ws.append(str(int.from_bytes(ch + b"\0" * (7 - len(ch)), "big")))
+    return "(unp %d [%s]%%uint63)" % (len(b), "; ".join(ws))
+
+
 def run_coq_files(workdir, files, timeout=600):
     """files: {name: text}.  Compiles all in parallel, returns {name: (rc, output)}."""
     os.makedirs(workdir, exist_ok=True)
@@ -202,10 +214,22 @@ def eval_mismatches(workdir, preamble, ok_def, case_texts, chunk=400, tag="cases
     """Evaluate `mismatches ok [cases]` in Coq, in chunks.  Returns
     (list of global mismatch indices, list of errors)."""
     files = {}
+    lit = re.compile(r'"((?:[^"]|"")*)"%string')
     for k in range(0, len(case_texts), chunk):
-        body = ";\n  ".join(case_texts[k:k + chunk])
+        part = case_texts[k:k + chunk]
+        # intern repeated string literals (elaborating a literal costs ~9 nodes per character)
+        counts = {}
+        for t in part:
+            for m in lit.finditer(t):
+                if len(m.group(1)) <= 80:
+                    counts[m.group(1)] = counts.get(m.group(1), 0) + 1
+        names = {s_: f"s_{i}_" for i, s_ in enumerate(x for x, n in counts.items() if n >= 2)}
+        defs = "".join(f'Definition {n} := "{s_}"%string.\n' for s_, n in names.items())
+        if names:
+            part = [lit.sub(lambda m: names.get(m.group(1), m.group(0)), t) for t in part]
+        body = ";\n  ".join(part)
         files[f"{tag}_{k // chunk}.v"] = (
-            preamble + "\n" + ok_def + "\nDefinition cases := [\n  " + body + "\n].\n"
+            PACK_PRE + preamble + "\n" + ok_def + "\n" + defs + "\nDefinition cases := [\n  " + body + "\n].\n"
             "Eval vm_compute in (mismatches ok cases).\n")
     res = run_coq_files(workdir, files)
     mism, errs = [], []
@@ -224,7 +248,7 @@ def eval_mismatches(workdir, preamble, ok_def, case_texts, chunk=400, tag="cases
 
 def eval_terms(workdir, preamble, terms, tag="show"):
     """Evaluate arbitrary terms (for replay files): returns raw vm_compute output."""
-    text = preamble + "\n" + "\n".join(f"Eval vm_compute in ({t})." for t in terms) + "\n"
+    text = PACK_PRE + preamble + "\n" + "\n".join(f"Eval vm_compute in ({t})." for t in terms) + "\n"
     res = run_coq_files(workdir, {f"{tag}.v": text})
     return res[f"{tag}.v"][1]
 
@@ -349,7 +373,7 @@ class Run:
             print(f"VIOLATION property={self.prop} replay={path} no-failing-input-found")
             rc = 1
         self._evidence(n_viol)
-        shutil.rmtree(self.workdir, ignore_errors=True)
+        if not os.environ.get('VERIF_KEEP'): shutil.rmtree(self.workdir, ignore_errors=True)
         return rc
 
     def _evidence(self, n_viol):
